@@ -46,6 +46,7 @@ class Contract:
         self.params = kw.pop('params', None)       # for externals without source
         self.defaults = kw.pop('defaults', {})
         self.tags = kw.pop('tags', {})
+        self.ghost = kw.pop('ghost', {})           # anchor text -> {'before': [stmts], 'after': [stmts]} ghost code
         self.atoms = kw.pop('atoms', [])          # extra key atoms for the native generator
         if kw:
             raise TypeError('unknown contract options %s' % list(kw))
@@ -70,11 +71,12 @@ def external(key, **kw):
 
 
 class GhostDef:
-    def __init__(self, fn, decreases=None, opaque=False):
+    def __init__(self, fn, decreases=None, opaque=False, quantified=False):
         self.fn = fn
         self.name = fn.__name__
         self.decreases = decreases
         self.opaque = opaque
+        self.quantified = quantified      # definition supplied as a quantified axiom (pattern = the application)
         src = textwrap.dedent(inspect.getsource(fn))
         mod = ast.parse(src)
         self.node = mod.body[0]
@@ -85,9 +87,9 @@ class GhostDef:
         self.ret = ann['return']
 
 
-def ghost(_fn=None, decreases=None, opaque=False):
+def ghost(_fn=None, decreases=None, opaque=False, quantified=False):
     def deco(fn):
-        GHOSTS[fn.__name__] = GhostDef(fn, decreases, opaque)
+        GHOSTS[fn.__name__] = GhostDef(fn, decreases, opaque, quantified)
         return fn
     if _fn is not None:
         return deco(_fn)
@@ -177,3 +179,11 @@ def union(name, **alts):
 def typedef(name, ty):
     TYPEDEFS[name] = ty
     return name
+
+
+BOUND_TYPES = {}
+
+
+def bound_types(**kw):
+    """default types of bound variables (by name) in quantifiers of ghost functions / lemmas"""
+    BOUND_TYPES.update(kw)
